@@ -329,6 +329,64 @@ impl Shape {
         });
     }
 
+    /// C05 clause 1 on catalogues of 8300-17000 records dominated by one word (posting lists beyond
+    /// 8192 entries): queries that contain the dominant word plus a scrambled spelling of some other
+    /// record's word must not bring back records that share no gram with them.
+    fn big_case(&self, cx: &mut Cx, lang: &'static str) {
+        let alpha = gen::lower_alphabet(lang);
+        let n = *cx.rng.pick(&[8300usize, 9000, 17000]);
+        let dom = gen::rand_word(&mut cx.rng, &alpha, 4, 6);
+        let mut recs: Vec<Rec> = (0..n).map(|i| (10 + i, format!("{} {}", dom, i), i % 97)).collect();
+        let mut specials: Vec<String> = vec![];
+        for k in 0..6 {
+            let w = gen::rand_word(&mut cx.rng, &alpha, 3, 6);
+            recs.push((n + 100 + k, format!("{} {}", w, gen::rand_word(&mut cx.rng, &alpha, 3, 5)), 500 + k));
+            specials.push(w);
+        }
+        let limit = if cx.rng.chance(1, 2) { recs.len() } else { 10 };
+        let st = St::build_sentinel(lang, &recs, limit);
+        let toks: std::collections::BTreeMap<usize, TextOwn> = recs.iter().rev().take(6).map(|r| (r.0, st.tok_record(&r.1))).collect();
+        let dom_tok = st.tok_record(&format!("{} 1", dom));
+        for w in &specials {
+            let mut cs = cv(w);
+            cs.swap(0, 1);
+            let scrambled = s(&cs);
+            for q in [format!("{} {}", dom, scrambled), format!("{} {}", scrambled, dom), scrambled.clone()].iter() {
+                let tq = st.tok_query(q);
+                if tq.words.is_empty() {
+                    continue;
+                }
+                let qgrams = oracle::grams_of(&tq);
+                cx.ctx(format!("C05 big lang={} n={} dominant={:?} q={:?}", lang, n, dom, q));
+                let hits = st.search(q);
+                cx.count("big-catalogue searches");
+                let dom_grams = oracle::grams_of(&dom_tok);
+                let dom_shared = !dom_grams.is_disjoint(&qgrams);
+                for hit in hits.iter() {
+                    cx.eval();
+                    if dom_shared && !toks.contains_key(&hit.0) {
+                        continue; // a 'dominant <n>' record and the query contains the dominant word's grams
+                    }
+                    let shares = match toks.get(&hit.0) {
+                        Some(t) => !oracle::grams_of(t).is_disjoint(&qgrams),
+                        None => {
+                            // a 'dominant <number>' record: its grams are the dominant word's plus the number's
+                            let mut g = oracle::grams_of(&dom_tok);
+                            g.extend(oracle::grams_of(&st.tok_record(&recs.iter().find(|r| r.0 == hit.0).map(|r| r.1.clone()).unwrap_or_default())));
+                            !g.is_disjoint(&qgrams)
+                        }
+                    };
+                    if !shares {
+                        cx.fail("unrelated-hit", json!({"lang": lang, "store": format!("{} records '{} <n>' plus 6 two-word records", n, dom), "limit": limit, "query": q, "hit": hit}));
+                    }
+                }
+                if !hits.is_empty() {
+                    cx.key(hparts(&[lang, &dom, q, "big"]));
+                }
+            }
+        }
+    }
+
     /// Joined-record matches with typos, cut short: one query word (no separator typed) covering two
     /// title words, the second of which starts with an accented / expanding letter of the language.
     fn joined_case(&self, cx: &mut Cx, lang: &'static str) {
@@ -527,14 +585,14 @@ impl Prop for Shape {
     fn streams(&self) -> Vec<Stream> {
         match self.0 {
             Which::Titles => vec![Stream::new("stores", 16000, 800000), Stream::new("bridge", 3200, 160000)],
-            Which::Related => vec![Stream::new("stores", 16000, 800000), Stream::new("exact", 168, 8400), Stream::new("joined", 8000, 400000), Stream::new("corpus", 64, 1600)],
+            Which::Related => vec![Stream::new("stores", 16000, 800000), Stream::new("exact", 168, 8400), Stream::new("joined", 8000, 400000), Stream::new("corpus", 64, 1600), Stream::new("big", 16, 160)],
             Which::Markup => vec![Stream::new("stores", 20000, 1000000), Stream::new("joined", 16000, 800000)],
         }
     }
     fn floors(&self) -> Vec<(&'static str, u64, u64)> {
         match self.0 {
             Which::Titles => vec![("hit with span", 2000, 20000), ("hit whose title needed composition", 50, 500), ("hit with expanding letter", 50, 500), ("hit whose title has NUL", 30, 300), ("hit whose title contains marker text", 50, 500), ("bridge searches with hits", 200, 2000), ("empty-query searches", 100, 1000)],
-            Which::Related => vec![("hit with fuzzy span", 200, 2000), ("hit with joined-record spans", 20, 200), ("exact-prefix case", 2000, 20000), ("exact-prefix ending inside an expanded letter", 5, 50), ("corpus-store searches", 300, 8000), ("corpus-store searches with more than 8 query words", 50, 1200)],
+            Which::Related => vec![("hit with fuzzy span", 200, 2000), ("hit with joined-record spans", 20, 200), ("exact-prefix case", 2000, 20000), ("exact-prefix ending inside an expanded letter", 5, 50), ("corpus-store searches", 300, 8000), ("corpus-store searches with more than 8 query words", 50, 1200), ("big-catalogue searches", 100, 1000)],
             Which::Markup => vec![("hit with 2+ spans", 500, 5000), ("joined-record split (more spans than query words)", 20, 200), ("hit of separator-only query", 200, 2000), ("span in title with padding", 30, 300), ("joined-with-typos hits with 2+ spans and typos", 2000, 100000)],
         }
     }
@@ -546,6 +604,7 @@ impl Prop for Shape {
             "bridge" => self.bridge_case(cx, lang),
             "joined" => self.joined_case(cx, lang),
             "corpus" => self.corpus_case(cx, if idx % 2 == 0 { "en" } else { "none" }),
+            "big" => self.big_case(cx, lang),
             _ => {}
         }
     }
